@@ -72,7 +72,7 @@ def gen_derivation(d, lang, n, nlex, tokfn=None):
     from depccg.grammar import en, ja
     g = en if lang == 'en' else ja
     ut = unary_table(lang)
-    lex = [Category.parse(c) for c in (SPECIAL_EN if nlex == 'special' else LEX[lang][:nlex])]
+    lex = [Category.parse(c) for c in (SPECIAL_EN if nlex == 'special' else (nlex if isinstance(nlex, (list, tuple)) else LEX[lang][:nlex]))]
     nodes = []
     for i in range(n):
         c = d.pick('lex%d' % i, lex)
